@@ -171,32 +171,7 @@ def run(ctx):
         if not any(c.endswith(callee) for c in cs):
             r.violate(k, f"{k} calls {cs}, expected {callee}", fs[0].loc())
     clause_ns_of_tag(r, mir)
-    # void list
-    import importlib.util, os
-    from ..facts import VERIF
-    from ..tagsem import Interp, tag_variants, OTHER, EMPTY
-    sp = importlib.util.spec_from_file_location("html_tables", os.path.join(VERIF, "spec", "html_tables.py"))
-    T = importlib.util.module_from_spec(sp); sp.loader.exec_module(T)
-    vf = [f for f in idx.fns if f.name == "is_void_element"]
-    if len(vf) != 1:
-        raise EngineError("anchor is_void_element")
-    it = Interp(idx, tag_param=(vf[0].node["sig"]["inputs"][-1]["pat"].get("name") or "tag_name"))
-    voids = set()
-    tags = tag_variants(idx)
-    p0 = [i for i in vf[0].node["sig"]["inputs"] if not i.get("self")]
-    for t in [OTHER] + tags:
-        try:
-            v = it.call_fn(vf[0], [t, False][:len(p0)])
-        except EngineError as e:
-            raise EngineError("is_void_element: " + str(e))
-        if v is True:
-            voids.add(t.lower())
-    r.inst("void-list", sample={"voids": sorted(voids)})
-    # the tree builder inserts and immediately pops the obsolete ones too (basefont, bgsound, frame, keygen, param)
-    must = T.VOID_ELEMENTS | T.VOID_OBSOLETE
-    may = must
-    if not must <= voids or not voids <= may:
-        r.violate("void-list", f"is_void_element: missing {sorted(must - voids)}, unexpected {sorted(voids - may)} (can_have_content would disagree with the HTML void-element list)", None)
+    clause_void_list(r, idx)
 
     # ------------------------------------------------------------------ R16.4
     r = ctx.rule("R16.4", "no byte-wise ASCII case folding of names that are encoded in the document encoding (legacy multi-byte encodings have trail bytes in A-Z/a-z)", "E-MIR lint", floor=3)
@@ -242,3 +217,33 @@ def clause_ns_of_tag(r, mir):
 def rule_ns_of_tag(ctx, mir, rid):
     r = ctx.rule(rid, "the namespace reported for a start tag does not depend on who asked for tree-builder feedback (lexer or tag scanner): it is read after the immediate feedback and is not affected by deferred feedback (integration points)", "E-MIR", floor=1)
     clause_ns_of_tag(r, mir)
+
+
+def clause_void_list(r, idx):
+    # void list
+    import importlib.util, os
+    from ..facts import VERIF
+    from ..tagsem import Interp, tag_variants, OTHER, EMPTY
+    sp = importlib.util.spec_from_file_location("html_tables", os.path.join(VERIF, "spec", "html_tables.py"))
+    T = importlib.util.module_from_spec(sp); sp.loader.exec_module(T)
+    vf = [f for f in idx.fns if f.name == "is_void_element"]
+    if len(vf) != 1:
+        raise EngineError("anchor is_void_element")
+    it = Interp(idx, tag_param=(vf[0].node["sig"]["inputs"][-1]["pat"].get("name") or "tag_name"))
+    voids = set()
+    tags = tag_variants(idx)
+    p0 = [i for i in vf[0].node["sig"]["inputs"] if not i.get("self")]
+    for t in [OTHER] + tags:
+        try:
+            v = it.call_fn(vf[0], [t, False][:len(p0)])
+        except EngineError as e:
+            raise EngineError("is_void_element: " + str(e))
+        if v is True:
+            voids.add(t.lower())
+    r.inst("void-list", sample={"voids": sorted(voids)})
+    # the tree builder inserts and immediately pops the obsolete ones too (basefont, bgsound, frame, keygen, param)
+    must = T.VOID_ELEMENTS | T.VOID_OBSOLETE
+    may = must
+    if not must <= voids or not voids <= may:
+        r.violate("void-list", f"is_void_element: missing {sorted(must - voids)}, unexpected {sorted(voids - may)} (can_have_content would disagree with the HTML void-element list)", None)
+
